@@ -4,6 +4,7 @@ executions (C10), Frisky records (C21).  Signature: ob(ctx, k, act, d, nv, probl
 from __future__ import annotations
 
 import math
+import json
 import warnings
 
 import numpy as np
@@ -359,6 +360,43 @@ def obs_rechunk(ctx, k, act, d, nv, problems):
         ctx["emit"].append(case)
     obs_blocks(ctx, k, act, d, nv, problems)
     obs_phases(ctx, k, act, d, nv, problems)
+    if k == len(prog) - 1:
+        obs_joint(ctx, k, act, d, nv, problems)
+
+
+# collections of EARLIER programs of this process over the same source (same data, same grid): computed together with the
+# current one in a single graph, every member must keep the value it has alone (names shared between their graphs must
+# denote the same blocks)
+_JOINT_PREV = {}
+
+
+def obs_joint(ctx, k, act, d, nv, problems, partners=3):
+    import dask
+
+    if ctx["env"][k]["kind"] == "err" or d is None:
+        return
+    # partners: same source under the same grid, the same rechunk actions, the same final shape - the programs whose
+    # absorbed reads are most alike (they differ in the windows they take)
+    sig = json.dumps([ctx["prog"][0], ctx["grids"][:1], [a for a in ctx["prog"][1:] if a["a"] in ("Rechunk", "RechunkSpec")],
+                      [int(v) if v == v else -1 for v in d.shape]], sort_keys=True, default=str)
+    alone = _value_of(fresh(d), True)
+    mates = [m for m in _JOINT_PREV.get(sig, []) if m[0].name != d.name][-partners:]
+    me = {"prog": ctx["prog"], "env": ctx["env"], "grids": ctx["grids"]}
+    for other, other_alone, other_ref in mates:
+        try:
+            with warnings.catch_warnings():
+                warnings.simplefilter("ignore")
+                a, b = dask.compute(fresh(d), fresh(other), scheduler="sync")
+            together = [spec_value(np.asarray(a)), spec_value(np.asarray(b))]
+        except Exception as ex:
+            together = [dict(RAISED, err=f"{type(ex).__name__}: {str(ex)[:160]}")] * 2
+        ctx["emit"].append({"fn": "joint", "at": k, "members": [{"alone": alone, "together": together[0]},
+                                                                 {"alone": other_alone, "together": together[1]}],
+                            "history": [other_ref]})
+    if len(_JOINT_PREV) > 4000:
+        _JOINT_PREV.clear()
+    _JOINT_PREV.setdefault(sig, []).append((d, alone, me))
+    del _JOINT_PREV[sig][:-partners]
 
 
 # ------------------------------------------------------------------ C20 (map_blocks block_info / block_id)
